@@ -6,6 +6,7 @@ import (
 	"errors"
 	"fmt"
 	"path/filepath"
+	"slices"
 	"sort"
 	"strings"
 	"testing"
@@ -44,8 +45,17 @@ func gen(rt *rapid.T) prog {
 	p := prog{NOps: rapid.IntRange(1, 4).Draw(rt, "nops"), NSRs: rapid.IntRange(1, 4).Draw(rt, "nsrs"), SharedIDs: rapid.IntRange(0, 3).Draw(rt, "sharedids") == 0, DupDuring: rapid.IntRange(0, 2).Draw(rt, "dupduring") == 0}
 	n := rapid.IntRange(2, 50).Draw(rt, "n")
 	for i := 0; i < n; i++ {
+		k := rapid.SampledFrom([]string{"create", "create", "savepoint", "ackop", "ackop", "ackop", "ackop", "acksr", "acksr", "acksr", "acksr", "restart", "newassembly", "failwrite", "finish", "finish"}).Draw(rt, "kind")
+		if k == "finish" {
+			// every member that still has to acknowledge does so, in a drawn interleaving
+			order := rapid.Permutation(append(slices.Repeat([]string{"ackop"}, p.NOps), slices.Repeat([]string{"acksr"}, p.NSRs)...)).Draw(rt, "order")
+			for _, ak := range order {
+				p.Ops = append(p.Ops, op{Kind: ak, State: rapid.SliceOfN(rapid.Byte(), 0, 3).Draw(rt, "state")})
+			}
+			continue
+		}
 		p.Ops = append(p.Ops, op{
-			Kind:  rapid.SampledFrom([]string{"create", "create", "savepoint", "ackop", "ackop", "ackop", "ackop", "acksr", "acksr", "acksr", "acksr", "restart", "newassembly", "failwrite"}).Draw(rt, "kind"),
+			Kind:  k,
 			Who:   rapid.SampledFrom([]int{0, 0, 0, 0, 1, 1, 2, 3, 4, 5}).Draw(rt, "who"),
 			IDOff: rapid.SampledFrom([]int{0, 0, 0, 0, 0, -1, 1}).Draw(rt, "idoff"),
 			State: rapid.SliceOfN(rapid.Byte(), 0, 3).Draw(rt, "state"),
